@@ -53,7 +53,8 @@ def gen_case(rng, max_n=6):
         if rng.random() < 0.4:
             st["config"]["max_concurrency"] = rng.randint(1, 4)
         steps.append(st)
-    return dict(kind="conf", n=n, edges=edges, attrs=attrs, tags=tags, maxc=rng.randint(1, 4), is_async=rng.random() < 0.3, steps=steps)
+    return dict(kind="conf", n=n, edges=edges, attrs=attrs, tags=tags, maxc=rng.randint(1, 4), is_async=rng.random() < 0.3, steps=steps,
+                call_first=random.Random(rng.getrandbits(30)).random() < 0.5)
 
 
 def build(case):
@@ -87,9 +88,16 @@ def observe(d, n):
     return out
 
 
+class StaleTable(Exception):
+    pass
+
+
 def run_impl(case, tmpdir):
     d = build(case)
     obs = []
+    if case.get("call_first"):
+        # the DAG has already been called once before it is reconfigured
+        tz.run_controlled(lambda: d(), tz.Ctl(free_run=True), is_async=case["is_async"])
     for si, st in enumerate(case["steps"]):
         try:
             if st["how"] == "dict":
@@ -113,6 +121,11 @@ def run_impl(case, tmpdir):
     handed = None
     if ctl.cfgs:
         c = ctl.cfgs[0]
+        # the compound priorities the scheduler picks by are those of the reconfigured DAG
+        dag_cp = dict(d.graph_ids.compound_priority)
+        stale = {k_: (c["cp"][k_], dag_cp.get(k_)) for k_ in c["cp"] if c["cp"][k_] != dag_cp.get(k_)}
+        if stale:
+            raise StaleTable(stale)
         handed = [c["maxc"]]
         for i in range(case["n"]):
             nm = "n%d" % i
@@ -168,6 +181,10 @@ def run(pid, tier, seed, res, only=None):
         base = dict(engine="kconf", case=case)
         try:
             obs, handed, st = run_impl(case, tmpdir)
+        except StaleTable as e:
+            for p in ("C07", "C06"):
+                res.hit(p, "monitor", "after the reconfigurations%s the scheduler was handed compound priorities that differ from the DAG's table: %s (handed, DAG)" % (" (the DAG had been called once before)" if case.get("call_first") else "", dict(list(e.args[0].items())[:3])), dict(base, kind="monitor"))
+            continue
         except BaseException as e:  # noqa: BLE001
             if isinstance(e, (KeyboardInterrupt, SystemExit)):
                 raise
